@@ -238,6 +238,7 @@ func runC01(c *fw.Case) {
 		}
 		var op string
 		var results []qframe.QFrame
+		argChanged := ""
 		newMembers := []*c01Member{}
 		pv, stack := fw.Guard(func() {
 			switch rng.Intn(22) {
@@ -395,10 +396,19 @@ func runC01(c *fw.Case) {
 				results = append(results, qf.Distinct(groupby.Columns(keys...), groupby.Null(rng.Intn(2) == 0)))
 			case 14, 15:
 				keys := pickKeysAny(rng, sh)
-				g := qf.GroupBy(groupby.Columns(keys...), groupby.Null(rng.Intn(2) == 0))
+				keysCopy := append([]string(nil), keys...)
+				// one option value (holding the caller's slice) configures the Grouper and, afterwards, a Distinct
+				keyOpt := groupby.Columns(keys...)
+				g := qf.GroupBy(keyOpt, groupby.Null(rng.Intn(2) == 0))
 				if g.Err != nil {
 					return
 				}
+				defer func() {
+					_ = qf.Distinct(keyOpt, groupby.Null(rng.Intn(2) == 0))
+					if fmt.Sprint(keys) != fmt.Sprint(keysCopy) {
+						argChanged = fmt.Sprintf("the slice of column names passed to groupby.Columns changed from %q to %q", keysCopy, keys)
+					}
+				}()
 				// aggregate with user functions that scribble over their input
 				var aggs []qframe.Aggregation
 				for _, col := range sh.Cols {
@@ -585,6 +595,10 @@ func runC01(c *fw.Case) {
 		c.Count("ops:"+opKind(strings.Fields(op + " x")[0]), 1)
 		if pv != nil {
 			c.Fail("panic:"+opKind(op), "step %d: %s panicked: %v\n%s", step, op, pv, clip(stack, 1200))
+			break
+		}
+		if argChanged != "" {
+			c.Fail("argument-changed:"+opKind(op), "step %d (%s): %s", step, op, argChanged)
 			break
 		}
 		for _, r := range results {
